@@ -46,6 +46,7 @@ def universes(rng, n, fixed=True):
         two = ["R/proj/nested", "R/proj/nested/inner"]
         combos.append((two, [("R/proj", [old_name(two[0])]), ("R/proj/nested", [old_name(two[1])]), ("R/proj/nested/inner", [old_name(two[0])])]))
         combos.append((two + ["R/proj"], [("R/proj/sub", [old_name(two[1])]), ("R/proj/nested", [old_name(two[0]), old_name(two[1])]), ("R/proj/nested", [old_name("R/proj")])]))
+    fixed_combos = list(combos)
     for _ in range(n):
         rds = rng.sample(RENAME_DIRS, rng.choice([1, 2, 3]))
         files = []
@@ -65,14 +66,16 @@ def universes(rng, n, fixed=True):
         extras.append(([], []))
         combos.append((["R"], [(ODD_DIR, [old_name("R")])]))
         extras.append(([], []))
+    fixed_combos += combos[len(extras) - (8 if fixed else 0):]
     for _ in range(n // 4):
         rds = rng.sample(RENAME_DIRS, rng.choice([2, 3]))
         files = [(rng.choice(FILE_DIRS), rng.sample([old_name(r) for r in RENAME_DIRS], rng.choice([1, 2]))) for _ in range(rng.choice([2, 3]))]
         combos.append((rds, files))
         extras.append((rng.sample(rds, 1) if rng.random() < 0.6 else [], [rng.choice(["R/orphan", "R/proj/nested", "R/sib", "R/proj"])] if rng.random() < 0.6 else []))
-    for (rds, files), (explicit, includes) in zip(combos, extras):
+    handmade = {k for k, c in enumerate(combos) if c in fixed_combos}
+    for k, ((rds, files), (explicit, includes)) in enumerate(zip(combos, extras)):
         projects = set(PROJECTS_DEFAULT)
-        if rng.random() < 0.2:
+        if k not in handmade and rng.random() < 0.2:  # the hand-made universes keep every project marker
             projects.discard(rng.choice(sorted(projects)))
         out.append(
             {
